@@ -36,6 +36,10 @@ type verifReq struct {
 	Loc, WorkDir, Gopath, Goroot string
 	// generated
 	Src string
+	// shortenSweep
+	Segments  []string
+	DirDepth  int
+	FileDepth int
 }
 
 type verifResp struct {
@@ -48,6 +52,7 @@ type verifResp struct {
 	Out         string              `json:"out,omitempty"`
 	Bool        bool                `json:"bool,omitempty"`
 	Registry    map[string][]string `json:"registry,omitempty"`
+	Sweep       *verifSweepResult   `json:"sweep,omitempty"`
 	Lines       []string            `json:"lines,omitempty"`
 }
 
@@ -158,6 +163,8 @@ func verifServe(req *verifReq) (resp verifResp) {
 				}
 			}
 		}
+	case "shortenSweep":
+		resp.Sweep = verifShortenSweep(req.Segments, req.DirDepth, req.FileDepth)
 	case "shorten":
 		p := program{workDir: req.WorkDir, gopath: req.Gopath, goroot: req.Goroot}
 		resp.Out = p.shortenLocation(req.Loc)
@@ -174,4 +181,83 @@ func verifServe(req *verifReq) (resp verifResp) {
 		resp.Err = "unknown op"
 	}
 	return
+}
+
+type verifSweepViolation struct {
+	Class                        string
+	Loc, WorkDir, Gopath, Goroot string
+	Out, Resolved                string
+}
+
+type verifSweepResult struct {
+	Layouts    int
+	Shortened  int // layouts in which the output differs from the input
+	Forms      map[string]int
+	Violations []verifSweepViolation
+	PerClass   map[string]int
+}
+
+// verifShortenSweep enumerates every layout (working dir, GOPATH, GOROOT: all paths up to dirDepth;
+// file: all paths up to fileDepth, over the segment alphabet) and checks on the real shortenLocation
+// that expanding the printed prefix gives back exactly the input path.
+func verifShortenSweep(segs []string, dirDepth, fileDepth int) *verifSweepResult {
+	var paths func(depth int) []string
+	paths = func(depth int) []string {
+		if depth == 0 {
+			return []string{""}
+		}
+		var out []string
+		for _, p := range paths(depth - 1) {
+			for _, s := range segs {
+				out = append(out, p+"/"+s)
+			}
+		}
+		return out
+	}
+	var dirs, files []string
+	for d := 1; d <= dirDepth; d++ {
+		for _, p := range paths(d) {
+			dirs = append(dirs, p+"/")
+		}
+	}
+	for d := 1; d <= fileDepth; d++ {
+		files = append(files, paths(d)...)
+	}
+	res := &verifSweepResult{Forms: map[string]int{}, PerClass: map[string]int{}}
+	wds := append([]string{""}, dirs...)
+	for _, wd := range wds {
+		for _, gp := range dirs {
+			for _, gr := range dirs {
+				p := program{workDir: wd, gopath: gp, goroot: gr}
+				for _, f := range files {
+					loc := f + ":3:7"
+					out := p.shortenLocation(loc)
+					res.Layouts++
+					if out != loc {
+						res.Shortened++
+					}
+					var resolved, form string
+					switch {
+					case strings.HasPrefix(out, "./"):
+						form, resolved = "./", wd+out[2:]
+					case strings.HasPrefix(out, "$GOPATH/"):
+						form, resolved = "$GOPATH", gp+out[len("$GOPATH/"):]
+					case strings.HasPrefix(out, "$GOROOT/"):
+						form, resolved = "$GOROOT", gr+out[len("$GOROOT/"):]
+					default:
+						form, resolved = "abs", out
+					}
+					res.Forms[form]++
+					if resolved != loc {
+						cls := "unresolvable|" + form
+						res.PerClass[cls]++
+						if res.PerClass[cls] <= 3 {
+							res.Violations = append(res.Violations, verifSweepViolation{cls, loc, wd, gp, gr, out, resolved})
+						}
+					}
+				}
+			}
+		}
+	}
+	return res
 }
